@@ -808,7 +808,18 @@ def parse_outs(t, N):
 
 
 def canon_out(o):
-    return json.loads(json.dumps(common._jsonable(o[1])))
+    c = json.loads(json.dumps(common._jsonable(o[1])))
+    # The name of the SECOND axis of a source-supplied edge table is not compared: the generator names it
+    # d<k>_cols, and /repo replaces an incomplete supplied edge table by the derived one under the canonical
+    # name "two" when a face-edge table is first needed (C02 buildGiven_rederived, fix 2e3b10c9) - a step the
+    # C07 export model does not contain (found by seed 15, DESIGN 13). The element axis and the rank are compared.
+    try:
+        d = c["vars"]["edge_node_connectivity"]
+        if len(d) == 2 and (d[1] == "two" or re.fullmatch(r"d\d+_cols", d[1])):
+            d[1] = "<second-axis>"
+    except (KeyError, TypeError, IndexError):
+        pass
+    return c
 
 
 # --------------------------------------------------------------------------------------
